@@ -201,7 +201,20 @@ impl Preprocessor {
     ) -> Result<(), CompileErr> {
         let name_string = decode_string(&desc.name);
         // Terminate early checking anything with a processed include type.
-        if KNOWN_DIALECTS.contains_key(&name_string) || desc.kind.is_some() {
+        if KNOWN_DIALECTS.contains_key(&name_string) {
+            return Ok(());
+        }
+
+        // An embedded file is read by the compiler too: it is a dependency,
+        // but its contents are data and are not searched for includes.
+        if desc.kind.is_some() {
+            let (full_name, _) = self
+                .opts
+                .read_new_file(self.opts.filename(), name_string)?;
+            includes.push(IncludeDesc {
+                name: full_name.as_bytes().to_vec(),
+                ..desc
+            });
             return Ok(());
         }
 
